@@ -1,12 +1,13 @@
 #!/usr/bin/env python3
 """Merge lean/obligations.trans.json (the translation-equivalence theorems, per property) into
 lean/obligations.json: adds the modules and theorem names; statements are pinned afterwards by
-`./check --record-statements`.  Idempotent.   usage: tools/merge_trans_obligations.py [verif-dir]"""
+`./check --record-statements`.  Idempotent.   usage: tools/merge_trans_obligations.py [verif-dir [file]]
+(file: obligations.trans.json by default; obligations.transstorage.json for the storage state machine)"""
 import json, os, sys
 root = sys.argv[1] if len(sys.argv) > 1 else os.path.join(os.path.dirname(os.path.abspath(__file__)), "..")
 ob_path = os.path.join(root, "lean", "obligations.json")
 ob = json.load(open(ob_path))
-add = json.load(open(os.path.join(root, "lean", "obligations.trans.json")))
+add = json.load(open(os.path.join(root, "lean", sys.argv[2] if len(sys.argv) > 2 else "obligations.trans.json")))
 for prop, e in add.items():
     cur = ob[prop]
     for m in e["modules"]:
